@@ -177,6 +177,11 @@ def family_cases(fam, ty, tier, seed):
         for _ in range(R):
             k = rnd.loguniform(kmin, kmax)
             add([k, rnd.loguniform(1e-6, 1e6)])
+        # beyond the envelope (k theta > MAX / 2^10): the rustdoc names overflow to inf there, so inf is
+        # accepted by the support predicate, NaN and negative values are not; never used for law checks
+        fmax = 1.7976931348623157e308 if ty == 'f64' else 3.4028234e38
+        for k, t in [(2e-3, fmax / 1.8), (1e-2, fmax / 4), (0.5, fmax / 2), (1.0, fmax), (30.0, fmax / 8)]:
+            add([k, t], ('c03',))
     elif fam == 'chi_squared':
         kmax = 1e6 if ty == 'f64' else 1e4
         for k in straddle(1.0, ty) + straddle(2.0, ty) + [0.01, 0.1, 0.5, 3.0, 10.0, 100.0, kmax]:
@@ -371,6 +376,12 @@ def discrete_u_cases(fam, tier, seed):
         # tiny p: k >= 32 (powf branch); results ~1/p up to 2^63: law judged where mean < 2^62
         for p in [1e-15, 2.0 ** -53, 1e-17]:
             add([p], ('law', 'c03', 'switch'))
+        # every change of k: the constructor squares pi = 1 - p until it drops below 1/2, i.e. k changes at
+        # p ~ ln2 / 2^k; k >= 32 switches the remainder's acceptance to the powf branch
+        for k in ([1, 2, 3, 8, 16, 30, 31, 32, 33, 40, 52] if th else [1, 8, 31, 32, 33, 40]):
+            pk = math.log(2.0) / 2.0 ** k
+            for f in (0.75, 0.99, 1.01):
+                add([pk * f], ('law', 'c03', 'switch'))
         add([0.0], ('c03',))
         add([2.0 ** -60], ('c03',))
         for _ in range(R // 2):
@@ -381,6 +392,9 @@ def discrete_u_cases(fam, tier, seed):
                      (1000, 0.01), (1000, 0.0101), (10 ** 6, 0.3), (10 ** 6, 1e-5), (10 ** 9, 0.5), (2 ** 32, 0.25), (2 ** 53, 0.5), (2 ** 62, 0.4), (2 ** 62, 0.5),
                      (2 ** 62, 1e-15), (2 ** 40, 2.0 ** -54), (10 ** 12, 1e-20), (5, 0.5), (30, 0.3), (1, 0.5), (0, 0.5), (12, 1.0), (12, 0.0), (50, 0.21), (50, 0.79),
                      (25, 0.4), (40, math.nextafter(0.5, 1)), (2 ** 62, 1 - 1e-3), (10 ** 4, 0.999)]:
+            add([n, p], ('law', 'c03', 'switch'))
+        # BINV (n p < 10, 1 - p != 1) with huge n
+        for n, p in [(2 ** 55, 2.0 ** -52), (2 ** 50, 2.0 ** -47), (10 ** 12, 5e-12), (2 ** 40, 3e-12), (2 ** 33, 1e-9), (2 ** 62, 2.0 ** -59), (10 ** 15, 9.9e-15)]:
             add([n, p], ('law', 'c03', 'switch'))
         for n, p in [(2 ** 63, 0.5), (2 ** 64 - 1, 0.3), (2 ** 64 - 1, 1e-19), (2 ** 64 - 1, 1 - 1e-10), (2 ** 64 - 2, 0.9), (2 ** 64 - 1, 1.0), (2 ** 64 - 1, 0.0), (2 ** 64 - 1, 2.0 ** -64)]:
             add([n, p], ('c03',))
